@@ -57,6 +57,13 @@ CLAIMED = {
             "partitionable threefry, observed by the harness); distinct terms = independent streams is the PRNG idealisation (JAX's contract), not proved; harness/worker_seed.py maps raw key "
             "data back to terms by BFS over real split/fold_in. No axioms.",
             "Coq proof over a mini-Jaxpr model + outcome-class correspondence (vm_compute)", "7/C14"),
+    "C19": ("Theorem C19_state_collects: for EVERY program of named/leaf-mode saves, namespaces, scans (nested, under namespaces), vmaps and deterministic code, the State interpreter "
+            "(flat equation list + namespace stack + fresh interpreter per scan body + leafwise stacking + merge at the current namespace) collects exactly the specification's dictionary "
+            "and restores the namespace stack (structural induction over programs); a save is found under path/name, later writes win, other names are untouched. Transparency "
+            "(state does not change the result) and jit/seed are checked by the correspondence only. Saves inside cond are outside the claim.",
+            "Trusted: Coq kernel; hand model coq/Model/StateM.v of State.eval_jaxpr_state / save / tag_state / namespace and of tracing (namespace -> push/pop, vmap -> batched saved values); "
+            "harness/worker_state.py encodes site and dynamic instance into each saved value and compares the collected dictionaries structurally. No axioms.",
+            "Coq refinement proof (interpreter = specification, induction over program syntax) + differential correspondence (vm_compute)", "7/C19"),
     "C09": ("Theorems: accept iff log u < min(0, log_alpha) (all kernels); the MH balance identity a*min(1,b/a) = b*min(1,a/b); the weight mh uses is the MH log ratio of the "
             "regenerate-from-prior proposal (via C04); mala's log_alpha is the MH log ratio of the Langevin proposal with drift eps^2/2*grad, scale eps, one noise per coordinate; "
             "n leapfrog steps are reversible under momentum flip for ANY gradient function over ANY commutative ring; rejected moves return the input; unselected coordinates untouched. "
